@@ -7,8 +7,8 @@
     channels and every length. *)
 From Coq Require Import ZArith List Bool QArith Lia.
 Require Import SPP.Base.Rt SPP.Model.C09_Arr2 SPP.Model.C09_Spec SPP.Gen.Kernels SPP.Gen.C09 SPP.Model.C09_Rdb
-  SPP.Model.C09_Pinned SPP.Proofs.C09_kernels SPP.Proofs.C09_paths SPP.Proofs.C09_rdb SPP.Proofs.C09_law
-  SPP.Proofs.C09_refuted.
+  SPP.Model.C09_Pinned SPP.Model.C09_Stream SPP.Proofs.C09_kernels SPP.Proofs.C09_paths SPP.Proofs.C09_rdb SPP.Proofs.C09_law SPP.Proofs.C09_lawx
+  SPP.Proofs.C09_stream SPP.Proofs.C09_refuted.
 Import ListNotations.
 Open Scope Z_scope.
 
@@ -57,6 +57,35 @@ Theorem C09_ref_min : forall (fch1 foff ts dm : Q) nchans, 1 <= nchans ->
   exists i, 0 <= i < nchans /\ hdr_delay fch1 foff ts dm (hdr_fmin fch1 foff nchans) i = 0.
 Proof. exact ref_min_zero. Qed.
 Print Assumptions C09_ref_min.
+
+(** the reference frequency is ANY number in the theorems above (inside the band or not).  Its whole effect is the
+    subtraction of its own delay against infinite frequency, dm*K/ref^2, which vanishes as ref grows: *)
+Theorem C09_law_reference_term : forall f dm ref : Q,
+  (dmdelay_sec f dm ref == dm * dm_constant * / (f * f) - dm * dm_constant * / (ref * ref))%Q.
+Proof. exact law_reference_term. Qed.
+Print Assumptions C09_law_reference_term.
+
+(** ref_freq = +inf: float('inf') ** -2 = 0.0, the value Q gives ref_freq ** -2 at ref_freq := 0; the delays are
+    then the nearest samples of 4.148808e3*DM*f^-2/tsamp *)
+Theorem C09_law_infinite_reference : forall f dm ts : Q,
+  nearest_even (dm_constant * dm * (/ (f * f)) / ts)%Q (dmdelay_samples f dm ts 0).
+Proof. exact law_infinite_reference. Qed.
+Print Assumptions C09_law_infinite_reference.
+
+(** a numeric reference equal to the frequency of channel i: channel i is not delayed *)
+Theorem C09_ref_numeric_channel : forall (fch1 foff ts dm : Q) i, hdr_delay fch1 foff ts dm (hdr_chan_freq fch1 foff i) i = 0.
+Proof. exact law_zero_at_channel. Qed.
+Print Assumptions C09_ref_numeric_channel.
+
+(** shape of what compute_dmdelays returns: a scalar DM gives one delay per channel -- a 1-D array of length nchans,
+    also for nchans = 1 -- and an array of n DMs gives an (n, nchans) table, also for n = 1 or nchans = 1 *)
+Theorem C09_delays_shape_scalar_dm : forall ndm nchans, dmdelays_shape true ndm nchans = [nchans].
+Proof. exact delays_shape_scalar. Qed.
+Print Assumptions C09_delays_shape_scalar_dm.
+
+Theorem C09_delays_shape_dm_table : forall ndm nchans, dmdelays_shape false ndm nchans = [ndm; nchans].
+Proof. exact delays_shape_table. Qed.
+Print Assumptions C09_delays_shape_dm_table.
 
 (** ===== block rotation: FilterbankBlock.dedisperse ===================================================== *)
 
@@ -148,6 +177,66 @@ Theorem C09_stream_kernel_partial : forall x out0 d maxdelay nchans nsamps index
              then sum_n (Z.to_nat nchans) (fun c => x (nchans * (k - index + d c) + c)) else 0.
 Proof. exact dedisperse_kernel_spec. Qed.
 Print Assumptions C09_stream_kernel_partial.
+
+(** ===== streamed dedispersion: the call site of Filterbank.dedisperse (regenerated from base.py) ============
+    d = header.get_dmdelays(dm) (reference ch1, so d 0 = 0: C09_ref_ch1); the hypothesis "some delay is >= 0" is
+    what the reference channel provides.  Composition over ALL blocks of the read plan is C06; here: every block. *)
+
+(** the kernel is handed delay_c = d_c + t0 (t0 = -min(0, min d)), all within [0, maxdelay], and maxdelay = span *)
+Theorem C09_stream_delays_normalised : forall d nchans gulp nsel, 1 <= nchans -> (exists r, 0 <= r < nchans /\ 0 <= d r) ->
+  stream_kernel_maxdelay d nchans gulp nsel = span_of nchans d /\
+  forall c, 0 <= c < nchans ->
+    stream_kernel_delay d nchans gulp nsel c = d c + t0_of nchans d /\
+    0 <= stream_kernel_delay d nchans gulp nsel c <= stream_kernel_maxdelay d nchans gulp nsel.
+Proof. exact stream_delays_normalised. Qed.
+Print Assumptions C09_stream_delays_normalised.
+
+(** hence every element the kernel reads lies inside the block's buffer (what C09_stream_kernel_partial leaves open:
+    its arrays are total functions, the compiled kernel wraps a negative index and does not check an overlong one) *)
+Theorem C09_stream_reads_in_bounds : forall d nchans gulp nsel nsamps_r t c, 1 <= nchans -> (exists r, 0 <= r < nchans /\ 0 <= d r) ->
+  0 <= c < nchans -> 0 <= t < nsamps_r - stream_kernel_maxdelay d nchans gulp nsel ->
+  0 <= stream_kernel_nchans d nchans gulp nsel * (t + stream_kernel_delay d nchans gulp nsel c) + c
+     < stream_kernel_nchans d nchans gulp nsel * nsamps_r.
+Proof. exact stream_reads_in_bounds. Qed.
+Print Assumptions C09_stream_reads_in_bounds.
+
+(** the same statement for the kernel alone: 0 <= delay_c <= maxdelay is its precondition *)
+Theorem C09_stream_kernel_precondition : forall (dk : arr) maxdelay nchans nsamps t c,
+  (forall k, 0 <= k < nchans -> 0 <= dk k <= maxdelay) -> 0 <= c < nchans -> 0 <= t < nsamps - maxdelay ->
+  0 <= nchans * (t + dk c) + c < nchans * nsamps.
+Proof. exact kernel_reads_in_bounds. Qed.
+Print Assumptions C09_stream_kernel_precondition.
+
+(** the returned series has nsamps_sel - span samples and its header declares that length *)
+Theorem C09_stream_length : forall d nchans gulp nsel, 1 <= nchans -> (exists r, 0 <= r < nchans /\ 0 <= d r) ->
+  stream_out_len d nchans gulp nsel = nsel - span_of nchans d /\
+  stream_declared_nsamples d nchans gulp nsel = stream_out_len d nchans gulp nsel.
+Proof. exact stream_length. Qed.
+Print Assumptions C09_stream_length.
+
+(** the plan is asked for skipback = maxdelay and a read size >= max(2*maxdelay, gulp); block 0 writes at 0 and
+    the write position advances by exactly the stride of that plan (read size - skipback), whatever gulp was asked *)
+Theorem C09_stream_blocks_tile : forall d nchans gulp nsel, 1 <= nchans ->
+  stream_plan_skipback d nchans gulp nsel = stream_kernel_maxdelay d nchans gulp nsel /\
+  2 * stream_kernel_maxdelay d nchans gulp nsel <= stream_plan_gulp d nchans gulp nsel /\
+  gulp <= stream_plan_gulp d nchans gulp nsel /\
+  stream_kernel_nchans d nchans gulp nsel = nchans /\
+  stream_kernel_index d nchans gulp nsel 0 = 0 /\
+  forall ii, stream_kernel_index d nchans gulp nsel (ii + 1) =
+             stream_kernel_index d nchans gulp nsel ii + (stream_plan_gulp d nchans gulp nsel - stream_plan_skipback d nchans gulp nsel).
+Proof. exact stream_plan_facts. Qed.
+Print Assumptions C09_stream_blocks_tile.
+
+(** block ii of nsamps_r samples, read where the plan puts it (start + its write position), adds
+    sum_c x[c][start + t + t0 + d_c] to exactly the output samples t in [index, index + nsamps_r - span) and leaves
+    every other sample alone.  Partial: the sum over the blocks of the plan (each t covered exactly once) is C06. *)
+Theorem C09_stream_block_partial : forall x d nchans gulp nsel out nsamps_r ii start, 1 <= nchans -> (exists r, 0 <= r < nchans /\ 0 <= d r) ->
+  forall k, stream_block x d nchans gulp nsel out (nsamps_r, ii, start + stream_kernel_index d nchans gulp nsel ii) k =
+    out k + if (stream_kernel_index d nchans gulp nsel ii <=? k) &&
+               (k <? stream_kernel_index d nchans gulp nsel ii + Z.max 0 (nsamps_r - span_of nchans d))
+            then spec_stream x nchans start d (t0_of nchans d) k else 0.
+Proof. exact stream_block_adds_spec. Qed.
+Print Assumptions C09_stream_block_partial.
 
 (** ===== the paths agree; pulse restoration; inverse ===================================================== *)
 
@@ -244,6 +333,24 @@ Proof.
   intros c Hc. assert (c = 0 \/ c = 1 \/ c = 2) as [->|[->| ->]] by lia.
   all: vm_compute; split; discriminate.
 Qed.
+
+(** 1400 MHz, DM 10, 1 ms against an infinite reference: 21.17 -> 21; against 3000 MHz (above any band): 16.56 -> 17;
+    one channel, one DM *)
+Example C09_example_law_edges :
+  dmdelay_samples 1400 10 (1 # 1000) 0 = 21 /\ dmdelay_samples 1400 10 (1 # 1000) 3000 = 17 /\
+  dmdelays_shape true 1 1 = [1] /\ dmdelays_shape false 1 1 = [1; 1] /\ dmdelays_shape false 5 1 = [5; 1].
+Proof. vm_compute. repeat split; reflexivity. Qed.
+
+(** streamed call site: delays [0; -1; -2] (ascending band), file of 6 samples from sample 0, gulp 2 < 2*maxdelay = 4:
+    normalised delays [2; 1; 0], length 4, read size 4, index of block 1 = 2; the two blocks of the plan give the series *)
+Example C09_example_stream :
+  (exists r, 0 <= r < 3 /\ 0 <= ex_dneg r) /\
+  map (stream_kernel_delay ex_dneg 3 2 6) [0; 1; 2] = [2; 1; 0] /\ stream_kernel_maxdelay ex_dneg 3 2 6 = 2 /\
+  stream_out_len ex_dneg 3 2 6 = 4 /\ stream_plan_gulp ex_dneg 3 2 6 = 4 /\ stream_kernel_index ex_dneg 3 2 6 1 = 2 /\
+  plan_blocks 10 0 6 4 2 0 = [(4, 0, 0); (4, 1, 2)] /\
+  to_list 4 (stream_run ex_x ex_dneg 3 2 6 (plan_blocks 10 0 6 4 2 0)) = to_list 4 (spec_stream ex_x 3 0 ex_dneg 2) /\
+  to_list 4 (spec_stream ex_x 3 0 ex_dneg 2) = [36; 39; 42; 45].
+Proof. split; [exists 0; split; [lia|vm_compute; discriminate]|]. vm_compute. repeat split; reflexivity. Qed.
 
 (** the law at 1400 MHz against 1500 MHz, DM 10, 1 ms: exact value 2.728..., and a genuine tie (delay 2.5 -> 2) *)
 Example C09_example_law :
